@@ -18,7 +18,8 @@ META = {
              "size >1; distinct by content hash"),
     "require": {t: ["class:entries=0", "class:arity=1", "class:arity=4", "class:coord_word=8", "class:common_word=8",
                     "class:common_wider_than_coords", "class:empty_rowids", "class:index_roundtrip",
-                    "class:dense_run_of_boundary_length", "class:arrays_tile_one_buffer"]
+                    "class:dense_run_of_boundary_length", "class:arrays_tile_one_buffer", "class:numpy_scalar_coordinates",
+                    "class:array_of_2^22_row_ids"]
                 for t in ("quick", "thorough")},
     "assumptions": ["with no entries the coordinate arity cannot be stored (dimension byte 0); keys are empty anyway"],
 }
@@ -49,16 +50,25 @@ def cases(ctx):
             c = indx.tiled_case(rng)
             c["kind"] = "entries"
             yield c
+        elif i == 13 and ctx.shard_index == 0:
+            c = indx.big_array_case(rng)
+            c["kind"] = "entries"
+            yield c
         else:
             c = indx.indx_case(rng)
             c["kind"] = "entries"
+            c["numpy_scalar_keys"] = bool(rng.random() < 0.12)
             yield c
 
 
 def judge(ctx, case):
     if case["kind"] == "index":
         return judge_index(ctx, case)
-    ent = indx.entries_dict(case)
+    ent = indx.plain_keys(indx.entries_dict(case))
+    if case.get("numpy_scalar_keys"):
+        ctx.count("class:numpy_scalar_coordinates")
+    if case.get("big_array"):
+        ctx.count("class:array_of_2^22_row_ids")
     common = int(case["common"])
     n = len(ent)
     maxc = max([c for k in ent for c in k], default=0)
